@@ -471,6 +471,22 @@ static uint8_t type_to_tag(Type t) {
     }
 }
 
+/* The name under which a module is recorded in the import table must not depend on how the
+ * compiler was started (working directory, relative or absolute source path): the resolved
+ * path "/abs/dir/modules/std/x/x.nano", "./modules/std/x/x.nano" or "../modules/std/x/x.nano" is
+ * recorded as "modules/std/x/x.nano" (what the FFI loader normalises), any other path as its
+ * file name. */
+static const char *canonical_module_name(const char *path) {
+    if (!path) return "";
+    const char *best = NULL;
+    for (const char *p = path; (p = strstr(p, "modules/")) != NULL; p++) {
+        if (p == path || p[-1] == '/') best = p;
+    }
+    if (best) return best;
+    const char *slash = strrchr(path, '/');
+    return slash ? slash + 1 : path;
+}
+
 /* Register an extern function in the codegen extern table and NVM import table */
 static void register_extern(CG *cg, const char *name, const char *module_name,
                            uint16_t param_count, uint8_t return_tag,
@@ -2989,7 +3005,7 @@ CodegenResult codegen_compile(ASTNode *program, Environment *env,
                         for (int p = 0; p < pc && p < 16; p++) {
                             param_tags[p] = type_to_tag(mitem->as.function.params[p].type);
                         }
-                        register_extern(&cg, ename, modules->module_paths[mi],
+                        register_extern(&cg, ename, canonical_module_name(modules->module_paths[mi]),
                                        pc, ret_tag, param_tags);
                     }
                 }
